@@ -1312,6 +1312,24 @@ class SI:
         except TypeError:
             return NotImplemented
 
+    # bit operations with constants that are arithmetic in disguise (two's-complement semantics of Python ints)
+    def __and__(self, o):
+        if isinstance(o, (int, np.integer)) and not isinstance(o, bool) and int(o) >= 0 and (int(o) + 1) & int(o) == 0:
+            return SI(_pymod(self.e, z3.IntVal(int(o) + 1)))
+        raise Unsupported("bitwise and of a symbolic integer with a non-mask operand")
+
+    __rand__ = __and__
+
+    def __rshift__(self, k):
+        if isinstance(k, (int, np.integer)) and int(k) >= 0:
+            return self // (1 << int(k))
+        raise Unsupported("shift by a symbolic amount")
+
+    def __lshift__(self, k):
+        if isinstance(k, (int, np.integer)) and int(k) >= 0:
+            return SI(self.e * z3.IntVal(1 << int(k)))
+        raise Unsupported("shift by a symbolic amount")
+
     def __neg__(self):
         return SI(-self.e)
 
